@@ -3,6 +3,7 @@ package drive
 import (
 	"bytes"
 	"crypto/sha256"
+	"encoding/binary"
 	"encoding/hex"
 	"encoding/json"
 	"fmt"
@@ -81,6 +82,7 @@ func concInstances(seed int64) []instance {
 			var buf yieldBuf
 			var w wcl
 			var errs []string
+			var errVals []error
 			return &instRun{
 				step: func(k int) {
 					var e error
@@ -88,6 +90,7 @@ func concInstances(seed int64) []instance {
 						if p := recover(); p != nil {
 							errs = append(errs, fmt.Sprint("panic: ", p))
 						}
+						errVals = append(errVals, e)
 					}()
 					switch k {
 					case 0:
@@ -104,7 +107,8 @@ func concInstances(seed int64) []instance {
 					}
 					errs = append(errs, fmt.Sprint(e))
 				},
-				result: func() string { return sum(buf.Bytes()) + fmt.Sprint(buf.Len(), errs) },
+				// errors are rendered once when they occur and once more when the run is over
+				result: func() string { return sum(buf.Bytes()) + fmt.Sprint(buf.Len(), errs, errVals) },
 			}
 		}}
 	}
@@ -184,6 +188,23 @@ func concInstances(seed int64) []instance {
 		mkReader("lzma-reader-truncated", func(r io.Reader) (io.Reader, error) { return lzma.NewReader(r) }, albuf.Bytes()[:albuf.Len()/2], len(text)),
 		mkReader("xz-reader-damaged-block2", func(r io.Reader) (io.Reader, error) { return xz.NewReader(r) }, damage(1), len(text)),
 		mkReader("xz-reader-damaged-block5", func(r io.Reader) (io.Reader, error) { return xz.NewReader(r) }, damage(4), len(text)),
+		// nothing but defaults / a small dictionary with the default block size: several times the
+		// dictionary in one block
+		mkWriter("xz-writer-defaults", func(w io.Writer) (wcl, error) { return xz.NewWriter(w) }, rawThenText, false),
+		mkWriter("xz-writer-small-dict-default-block", func(w io.Writer) (wcl, error) {
+			return XZCfg{LC: 3, PB: 2, DictCap: 4096, BufSize: 4096, Check: 4}.lib().NewWriter(w)
+		}, text, false),
+		// instances that fail because a stated size is wrong, each with its own numbers: whatever the
+		// error values carry belongs to the instance that failed
+		mkReader("lzma-reader-size-short", func(r io.Reader) (io.Reader, error) { return lzma.NewReader(r) }, aloneWithSize(albuf.Bytes(), int64(len(text)-11)), len(text)),
+		mkReader("lzma-reader-size-long", func(r io.Reader) (io.Reader, error) { return lzma.NewReader(r) }, aloneWithSize(albuf.Bytes(), int64(len(text)+1000)), len(text)),
+		mkWriter("lzma-writer-size-mismatch", func(w io.Writer) (wcl, error) {
+			return lzma.WriterConfig{DictCap: 65536, SizeInHeader: true, Size: int64(len(text)) + 777}.NewWriter(w)
+		}, text, false),
+		mkReader("lzma-reader-size-short-2", func(r io.Reader) (io.Reader, error) { return lzma.NewReader(r) }, aloneWithSize(albuf.Bytes(), 4321), len(text)),
+		mkWriter("lzma-writer-size-mismatch-2", func(w io.Writer) (wcl, error) {
+			return lzma.WriterConfig{DictCap: 4096, SizeInHeader: true, Size: int64(len(rnd)) + 5}.NewWriter(w)
+		}, rnd, false),
 		mkWriter("xz-writer-crc32-blocks", func(w io.Writer) (wcl, error) {
 			return XZCfg{LC: 3, PB: 2, DictCap: 4096, BufSize: 4096, Check: 1, BlockSize: 700}.lib().NewWriter(w)
 		}, text, false),
@@ -204,6 +225,13 @@ func concInstances(seed int64) []instance {
 		mkReader("lzma2-reader", func(r io.Reader) (io.Reader, error) { return lzma.Reader2Config{DictCap: 65536}.NewReader2(r) }, l2buf.Bytes(), len(rnd)),
 		mkReader("lzma-reader", func(r io.Reader) (io.Reader, error) { return lzma.NewReader(r) }, albuf.Bytes(), len(text)),
 	}
+}
+
+// aloneWithSize returns a copy of a .lzma stream with the size field of its header set to n.
+func aloneWithSize(stream []byte, n int64) []byte {
+	b := append([]byte{}, stream...)
+	binary.LittleEndian.PutUint64(b[5:13], uint64(n))
+	return b
 }
 
 // runInterleaving forces the schedule (sequence of 1-based instance ids) on
@@ -262,19 +290,50 @@ func freshRefs(c *hx.Ctx, n int) []string {
 		return nil
 	}
 	out := make([]string, n)
+	// "a deterministic function of configuration and input": the stand-alone result is taken in
+	// three different process environments (processor count, garbage-collector pace, working
+	// directory, locale/time-zone/home variables) and must not depend on them
+	envs := [][]string{
+		nil,
+		{"GOMAXPROCS=1", "GOGC=5", "TZ=Asia/Tokyo", "LANG=tr_TR.UTF-8", "LC_ALL=tr_TR.UTF-8"},
+		{"GOMAXPROCS=3", "GOGC=400", "HOME=/nonexistent", "TMPDIR=/nonexistent", "USER=nobody"},
+	}
+	alt := make([][]string, n)
 	var wg sync.WaitGroup
+	sem := make(chan struct{}, 2*runtime.NumCPU())
 	for i := 0; i < n; i++ {
-		wg.Add(1)
-		go func(i int) {
-			defer wg.Done()
-			b, err := exec.Command(self, "concref", fmt.Sprint(c.Seed), fmt.Sprint(i)).CombinedOutput()
-			s := strings.TrimSpace(string(b))
-			if err == nil && strings.HasPrefix(s, "CONCREF ") && !strings.Contains(s, "\n") {
-				out[i] = strings.TrimPrefix(s, "CONCREF ")
-			}
-		}(i)
+		alt[i] = make([]string, len(envs))
+		for e := range envs {
+			wg.Add(1)
+			go func(i, e int) {
+				defer wg.Done()
+				sem <- struct{}{}
+				defer func() { <-sem }()
+				cmd := exec.Command(self, "concref", fmt.Sprint(c.Seed), fmt.Sprint(i))
+				if envs[e] != nil {
+					cmd.Env = append(os.Environ(), envs[e]...)
+					cmd.Dir = "/"
+				}
+				b, err := cmd.CombinedOutput()
+				s := strings.TrimSpace(string(b))
+				if err == nil && strings.HasPrefix(s, "CONCREF ") && !strings.Contains(s, "\n") {
+					alt[i][e] = strings.TrimPrefix(s, "CONCREF ")
+				}
+			}(i, e)
+		}
 	}
 	wg.Wait()
+	names := concInstances(c.Seed)
+	for i := range out {
+		out[i] = alt[i][0]
+		for e := 1; e < len(envs); e++ {
+			if alt[i][e] == "" {
+				out[i] = ""
+			} else if alt[i][e] != alt[i][0] && alt[i][0] != "" {
+				c.Violation(map[string]string{"kind": "depends-on-environment", "instance": names[i].name}, fmt.Sprintf("%s: alone in a fresh process it produces %s, with the environment %v %s", names[i].name, alt[i][0], envs[e], alt[i][e]), map[string]any{"instance": names[i].name, "env": envs[e]})
+			}
+		}
+	}
 	for i, s := range out {
 		if s == "" {
 			c.Inconclusive("stand-alone reference run of instance %d failed", i)
